@@ -91,6 +91,9 @@ def run(tier):
     for j in mjobs:
         if j["list"] is not None and j["N"] >= 3 and rng.random() < 0.35:
             extra.append(dict(j, registers=rng.randrange(1, j["N"] - 1) if j["N"] > 2 else 1))
+    for j in mjobs:
+        if j["list"] is not None:
+            j["seqtype"] = ["list", "tuple", "ndarray"][rng.randrange(3)]
     mjobs += extra
     core.dbg("meas jobs", len(mjobs))
     res = par.pmap(workers.meas_circuits, mjobs)
